@@ -21,7 +21,11 @@ CONSTANTS
     Ops,        \* sequence of thread programs, e.g. <<"api", "rxdisc">>
     TwoNs,      \* BOOLEAN
     Bystander,  \* BOOLEAN
-    Dev         \* {"D7"}: the check-then-mark window of the code; {} = atomic gate (design)
+    Dev,        \* {"D7"}: the check-then-mark window of the code; {} = atomic gate (design)
+    YieldAt     \* labels at which a thread can be pre-empted.  Threaded server: every
+                \* access (all labels).  asyncio server: only where a coroutine really
+                \* suspends - the send to the transport and the application handler -
+                \* which makes the same program text the model of AsyncServer (C04).
 
 VARIABLES st, gh
 vars == <<st, gh>>
@@ -113,6 +117,12 @@ Step(s, i) ==
       [] t.pc = "environ.del" ->
             (IF s.environ THEN Done([s EXCEPT !.environ = FALSE], i, "ok") ELSE Done(s, i, "KeyError"))
 
+(* a scheduling step: the thread performs its pending access and runs on   *)
+(* until its next pre-emption point                                        *)
+RECURSIVE RunOn(_, _)
+RunOn(s, i) == IF s.th[i].pc \in YieldAt \cup {"done"} THEN s ELSE RunOn(Step(s, i), i)
+Sched(s, i) == RunOn(Step(s, i), i)
+
 Runnable(s) == {i \in Threads : s.th[i].pc # "done"}
 
 InitGh == [dev |-> {}]
@@ -120,9 +130,10 @@ InitGh == [dev |-> {}]
 GhostNext(s, g, i) ==
     LET t == s.th[i]
     IN  IF t.pc = "m.pre_disconnect" /\ ~IsConnected(s, t.sid) THEN [g EXCEPT !.dev = @ \cup {"D7"}] ELSE g
+(* (with the asyncio YieldAt nobody is ever parked at "m.pre_disconnect")  *)
 
 Init == st = InitSt /\ gh = InitGh
-Next == \E i \in Runnable(st) : st' = Step(st, i) /\ gh' = GhostNext(st, gh, i)
+Next == \E i \in Runnable(st) : st' = Sched(st, i) /\ gh' = GhostNext(st, gh, i)
 Spec == Init /\ [][Next]_vars
 
 (* ---- the property ------------------------------------------------------ *)
